@@ -66,7 +66,31 @@ M3 = """program main
 end program main
 """
 
-USER_NAMES = {"pub_alpha", "pub_beta", "priv_gamma", "t1", "t2", "comp_x", "comp_hidden", "comp_y", "bind_f", "pub_sub", "pub_fun",
+M4 = """module m4
+  implicit none
+  integer :: xval = 1
+  integer :: yval = 1
+end module m4
+subroutine s1()
+  use m4, only: xval, aval => xval
+  print *, xv
+  print *, av
+end subroutine s1
+subroutine s2()
+  use m4, only: aval => xval, bval => xval
+  print *, av
+  print *, bv
+  print *, xv
+end subroutine s2
+subroutine s3()
+  use m4, cval => xval
+  print *, xv
+  print *, cv
+  print *, yv
+end subroutine s3
+"""
+
+USER_NAMES = {"xval", "yval", "aval", "bval", "cval", "m4", "s1", "s3","pub_alpha", "pub_beta", "priv_gamma", "t1", "t2", "comp_x", "comp_hidden", "comp_y", "bind_f", "pub_sub", "pub_fun",
               "priv_sub", "m2_var", "pu_local_mod", "s2", "arg_one", "loc_value", "pu_inner", "obj", "ren_beta", "m1", "m2",
               "main", "zz", "self", "n"}
 
@@ -85,12 +109,21 @@ PROBES = [
     ("main.f90", 7, "zz = pub_", {"pub_alpha", "pub_beta", "pub_sub", "pub_fun"}, {"priv_gamma", "priv_sub"}),
     ("main.f90", 8, "zz = priv_", set(), {"priv_gamma", "priv_sub"}),
     ("main.f90", 9, "zz = m2_", set(), {"m2_var"}),
+    # one entity under several local names; an entity renamed away without ONLY
+    ("m4.f90", 7, "print *, xv", {"xval"}, set()),
+    ("m4.f90", 8, "print *, av", {"aval"}, set()),
+    ("m4.f90", 12, "print *, av", {"aval"}, {"bval"}),
+    ("m4.f90", 13, "print *, bv", {"bval"}, {"aval"}),
+    ("m4.f90", 14, "print *, xv", set(), {"xval"}),
+    ("m4.f90", 18, "print *, xv", set(), {"xval"}),
+    ("m4.f90", 19, "print *, cv", {"cval"}, set()),
+    ("m4.f90", 20, "print *, yv", {"yval"}, set()),
 ]
 
 
 def run():
     from replay.harness import Workspace, session
-    files = {"m1.f90": M1, "m2.f90": M2, "main.f90": M3}
+    files = {"m1.f90": M1, "m2.f90": M2, "main.f90": M3, "m4.f90": M4}
     ws = Workspace(files)
     try:
         msgs = []
